@@ -1,5 +1,6 @@
 import TFV.Properties.Metrics
 import TFV.Properties.Src.MetricCounts
+import TFV.Properties.Src.MetricAccuracy
 #print axioms TFV.Metrics.C19_counts
 #print axioms TFV.Metrics.C19_recall
 #print axioms TFV.Metrics.C19_precision
@@ -14,3 +15,5 @@ import TFV.Properties.Src.MetricCounts
 #print axioms TFV.SrcTie.C19_src_precision_counts
 #print axioms TFV.SrcTie.C19_src_f1_counts
 #print axioms TFV.SrcTie.C19_src_precision_inadmissible
+#print axioms TFV.SrcTie.C19_src_accuracy
+#print axioms TFV.SrcTie.C19_src_accuracy_rejects
